@@ -139,10 +139,10 @@ pub open spec fn traks_len(v: Seq<TrakBox>, n: int) -> int
 {
     if n <= 0 { 0 } else { traks_len(v, n - 1) + trak_len(v[n - 1]) }
 }
-pub open spec fn moov_len(b: MoovBox) -> int { 8 + mvhd_len(b.mvhd) + traks_len(b.traks@, b.traks@.len() as int) }
+pub open spec fn moov_len(b: MoovBox) -> int { 8 + mvhd_len(b.mvhd) + traks_len(b.traks@, b.traks@.len() as int) + (match b.mvex { Some(x) => mvex_len(x), None => 0 }) }
 /// (user data / metadata are not produced by the muxer: required absent for now)
 pub open spec fn moov_wire(b: MoovBox) -> bool {
-    &&& mvhd_wire(b.mvhd) && b.meta is None && b.udta is None
+    &&& mvhd_wire(b.mvhd) && b.meta is None && b.udta is None && (b.mvex matches Some(x) ==> mvex_wire(x))
     &&& forall|i: int| 0 <= i < b.traks@.len() ==> trak_wire(#[trigger] b.traks@[i])
     &&& len_fits(moov_len(b))
 }
@@ -197,7 +197,7 @@ pub open spec fn minf_fw(b: MinfBox) -> bool {
 pub open spec fn mdia_fw(b: MdiaBox) -> bool { mdhd_wire(b.mdhd) && hdlr_fw(b.hdlr) && minf_fw(b.minf) }
 pub open spec fn trak_fw(b: TrakBox) -> bool { tkhd_wire(b.tkhd) && b.edts is None && mdia_fw(b.mdia) }
 pub open spec fn moov_fw(b: MoovBox) -> bool {
-    &&& mvhd_wire(b.mvhd) && b.meta is None && b.udta is None
+    &&& mvhd_wire(b.mvhd) && b.meta is None && b.udta is None && b.mvex is None
     &&& forall|i: int| 0 <= i < b.traks@.len() ==> trak_fw(#[trigger] b.traks@[i])
 }
 
